@@ -13,7 +13,8 @@ is the reference and the Gallina transcription is what is validated) with vlib.e
   chk.violations   (replay file, " no-failing-input-found")  when Contracts.v disagrees with the deployed contract (the replay
                    file carries the failing case, the step and the name of what disagreed) or when the harness / the case
                    file no longer builds. Never a plain VIOLATION: a disagreement here means the specification transcription
-                   is wrong, not the Go code.
+                   is wrong, not the Go code. `bin/check <ID> --replay <that file>` re-runs exactly the attached cases
+                   (key `evm_cases`) through this part; the property's own harness gets an empty input list.
   chk.cov["evm"]   evaluations, distinct_nontrivial, comparisons, input_distribution, samples, rule
 """
 import json
@@ -256,7 +257,7 @@ def run_evm_part(chk):
             return
         inp = os.path.join(wd, "evm_replay_in.jsonl")
         with open(inp, "w") as f:
-            for c in rp.get("cases") or [rp.get("case")]:
+            for c in rp.get("evm_cases") or []:
                 f.write(json.dumps(c["in"] if isinstance(c, dict) and "in" in c else c) + "\n")
         args = ["-replay", inp, "-out", of, "-tier", chk.tier]
     else:
@@ -287,7 +288,9 @@ def run_evm_part(chk):
     what = lines[0].split(": ", 1)[1] if lines else "case %d (no diagnosis available)" % bad[0]
     cov["disagreement_details"] = {str(i): _describe(outs[i], diag.get(i, [])) for i in bad[:3]}
     path = vlib.write_replay(pid, chk.seed, "obligation", dict(
-        case=first, cases=[outs[i] for i in bad[:3]], harness="evm", theorem=THEOREM,
+        # `cases` stays empty on purpose: vlib.Check.step_harness feeds `cases` of any replay file to the property's own harness
+        # (harness/bridge for C01), which must not see EVM operation lists; this part reads `evm_cases`
+        cases=[], evm_cases=[outs[i] for i in bad[:3]], harness="evm", theorem=THEOREM,
         what="Contracts.v disagrees with the deployed contract on: %s (%d of %d cases; first failing case attached)" % (what, len(bad), len(outs)),
         details={str(i): _describe(outs[i], diag.get(i, [])) for i in bad[:3]},
         diag={str(i): diag.get(i, []) for i in bad[:3]}))
